@@ -288,6 +288,8 @@ func (c *compiler) compile(tok *token) []instruction {
 	switch tok.Symbol {
 	case "(int)":
 		res = append(res, instruction{Code: codePush, A: reg(tok.Int())})
+	case "(end)": // omitted upper bound of a slice expression: nil means len
+		res = append(res, instruction{Code: codeConst, A: reg(c.Globals.Index("nil"))})
 	case "(char)":
 		res = append(res, instruction{Code: codePush, A: reg(tok.Char())})
 	case "(float)":
